@@ -74,6 +74,8 @@ PLAN = {
         dict(test="TestC19Node", quick=(8, 4), thorough=(150, 4), timeout=1500, timeout_thorough=7200),
         # the trigger's way through the two loops (fake scheduler, gated SPIs): a trigger for the current position is never lost
         dict(test="TestC19R", quick=(60, 8), thorough=(1000, 8), race=True, timeout=1500, timeout_thorough=7200),
+        # real timer, commit callbacks that outlast the election timeout: a view left by timeout lasted at least its timeout
+        dict(test="TestC19RT", quick=(12, 8), thorough=(300, 8), timeout=1500, timeout_thorough=7200),
     ],
     "C20": [
         dict(test="TestC20", quick=(6000, 16), thorough=(200000, 16), timeout_thorough=7200),
